@@ -198,14 +198,14 @@ class Engine:
         self.depth = 0
         self.unmodelled = set()
         self.nqueries = 0; self.ndecisions = 0; self.solver_s = 0.0; self.total_paths = 0; self.cut_at = None; self.path_queries = 0; self.stack = []
-        self.hash_order = 'insertion'
+        self.hash_order = 'insertion'; self.max_depth = 2000
 
     # ---------------- paths
     def reset_path(self, prefix=()):
         self.decisions = list(prefix); self.dpos = 0; self.newalts = []
         self.solver = z3.Solver(); self.pc = []
         self.depth = 0; self.stack = []; self.cut_at = None
-        self.path_queries = 0
+        self.path_queries = 0; self.rng_memo = {}
 
     def explore(self, mk_inputs, run, limit=None, prefix=()):
         """DFS over all decision sequences extending `prefix` (re-execution from the decision prefix).
@@ -343,6 +343,7 @@ class Engine:
                 elif isinstance(v, RcV): slot = Slot(v.cell, 0)
                 elif isinstance(v, Cell): slot = Slot(v.c, 0)
                 elif isinstance(v, Agg) and v.tag == "Box": slot = v.f[0].f[0]
+                elif isinstance(v, (StrV, VecV)): pass        # &str / &[T] are represented by the data itself
                 else: raise TypeError(f"deref of {v!r} in {s}")
             elif k == "field":
                 v = slot.get()
